@@ -603,8 +603,13 @@ func wrapMain(args []string) error {
 								if tr > 0 && rng.Intn(4) == 0 {
 									tdirv = 1 - pdir
 								}
+								// truncators of different advance follow each other on the re-used wrapper
+								tadv := 64
+								if tr > 0 && rng.Intn(2) == 0 {
+									tadv = 64 * (2 + rng.Intn(2))
+								}
 								sc := wrapScenario{id: s.key(), cls: cls, text: s.text, build: s.build, lvls: levelsFor(s.dirs, pdir),
-									cfg: wCfg{Pdir: pdir, Pol: pol, Trunc: tr, Tadv: 64, Cont: cont, Notrim: notrim, Tdir: tdirv}, width: w, api: api, delta: delta}
+									cfg: wCfg{Pdir: pdir, Pol: pol, Trunc: tr, Tadv: tadv, Cont: cont, Notrim: notrim, Tdir: tdirv}, width: w, api: api, delta: delta}
 								if api == "next" && rng.Intn(5) == 0 {
 									sc.abandonAfter = 1 + rng.Intn(2)
 								}
